@@ -1,4 +1,4 @@
-\* MC_iso -- generated by mkcfg.py; three 5-tuples (same IP other port, other IP), shared users, peers, numbers, txids
+\* MC_iso -- generated by mkcfg.py; three 5-tuples (same IP other port, other IP), shared users, peers, numbers, txids; u2 over quota
 SPECIFICATION Spec
 VIEW View
 CONSTANTS
@@ -24,6 +24,7 @@ CONSTANTS
   Denied <- MCNoDenied
   Toks = {"none"}
   ResvTO = 30
+  QuotaDenied = {"u2"}
   MaxDepth = 5
 CONSTRAINT DepthBound
 INVARIANTS TypeOK C01_NeverInstalled NoOrphans C08_Bijection C08_Range C19_ReservedOnce
